@@ -31,6 +31,12 @@
 (* where it is defective ("absent-by-operator", "ser-drop-exclusions",     *)
 (* "any-tree") or a plausible coding slip; each must be rejected by TLC    *)
 (* (Requirements_Weak*.cfg).                                               *)
+(*                                                                         *)
+(* Atoms of the closed model are NORMALISED (key, value) pairs: key alias  *)
+(* and value translation (RequirementsSem.NormAtom) are a pure pre-pass of *)
+(* NewRequirementWithFlexibility; the trace spec applies NormAtom to every *)
+(* logged atom (keyed by the stable key, whichever spelling was written)   *)
+(* before evaluating `Admits`.                                             *)
 (***************************************************************************)
 EXTENDS RequirementsSem, TLC, Json
 
@@ -217,6 +223,27 @@ Inv_C12_Compatible  == K8sDefined(h) =>
                           \A i \in 0..(Len(h) - 1) : \A allow \in BOOLEAN :
                              ImplCompatKey(FoldL(Pre(i)), FoldL(Suf(i)), allow)
                                <=> SemCompatKey(i > 0, Pre(i), TRUE, Suf(i), allow, V)
+
+\* several keys: Requirements.Intersects visits the shared keys in an arbitrary (Go map) order; the verdict must be the
+\* conjunction of the per-key verdicts whatever the order.  The current split of the chain is one shared key, a
+\* reference pair of each per-key verdict class (overlap / disjoint / excused pair) the other; both visiting orders.
+RefPairs == { <<Atom("In", {"1"}, 0, 0), Atom("In", {"1", "2"}, 0, 0)>>,
+              <<Atom("In", {"1"}, 0, 0), Atom("In", {"2"}, 0, 0)>>,
+              <<Atom("DoesNotExist", {}, 0, 0), Atom("NotIn", {"1"}, 0, 0)>> }
+RECURSIVE Visit(_, _)
+Visit(ps, k) ==
+    IF k > Len(ps) THEN TRUE
+    ELSE IF ImplHasIntersection(ps[k][1], ps[k][2]) THEN Visit(ps, k + 1)
+    ELSE IF ImplAbsOK(ps[k][2]) /\ ImplAbsOK(ps[k][1])                   \* excused: both accept an absent label
+         THEN (IF Mut = "intersects-stops-at-first" THEN TRUE ELSE Visit(ps, k + 1))
+    ELSE FALSE
+Inv_C12_MultiKey == K8sDefined(h) =>
+    \A i \in 1..(Len(h) - 1) : \A rp \in RefPairs :
+        LET cur == <<FoldL(Pre(i)), FoldL(Suf(i))>>
+            ref == <<ImplNew(rp[1]), ImplNew(rp[2])>>
+            sem == /\ SemCompatKey(TRUE, Pre(i), TRUE, Suf(i), FALSE, V)
+                   /\ SemCompatKey(TRUE, <<rp[1]>>, TRUE, <<rp[2]>>, FALSE, V)
+        IN Visit(<<cur, ref>>, 1) = sem /\ Visit(<<ref, cur>>, 1) = sem
 
 \* ---------------------------------------------------------------- serialisation and Any (C13 a, e)
 SerOf == ImplSerialize(r)
